@@ -4,6 +4,15 @@ use markdown_it::MarkdownIt;
 use markdown_it::plugins::{cmark, extra, html, sourcepos};
 
 pub const N_PLUGINS: usize = 21;
+/// further bits: structures built from the crate's documented generics (code_pair / emph_pair / full_link)
+pub const N_EXTRA: usize = 5;
+pub const EXTRA_NAMES: [&str; N_EXTRA] = ["code_pair<%,tokenize>", "code_pair<$,verbatim>", "emph_pair<^,1>", "emph_pair<=,2>", "full_link<?>"];
+
+#[derive(Debug)] pub struct Gen(pub &'static str);
+impl markdown_it::NodeValue for Gen {
+    fn render(&self, node: &markdown_it::Node, fmt: &mut dyn markdown_it::Renderer) { fmt.open("s", &node.attrs); fmt.contents(&node.children); fmt.close("s"); }
+}
+
 pub const NAMES: [&str; N_PLUGINS] = [
     "newline", "escape", "backticks", "emphasis", "link", "image", "autolink", "entity",
     "code", "fence", "blockquote", "hr", "list", "reference", "heading", "lheading", "paragraph",
@@ -39,6 +48,11 @@ fn add_one(md: &mut MarkdownIt, i: usize) {
         18 => html::html_inline::add(md),
         19 => html::html_block::add(md),
         20 => sourcepos::add(md),
+        21 => markdown_it::generics::inline::code_pair::add_with::<'%', true>(md, |_| markdown_it::Node::new(Gen("pct"))),
+        22 => markdown_it::generics::inline::code_pair::add_with::<'$', false>(md, |_| markdown_it::Node::new(Gen("dollar"))),
+        23 => markdown_it::generics::inline::emph_pair::add_with::<'^', 1, true>(md, || markdown_it::Node::new(Gen("sup"))),
+        24 => markdown_it::generics::inline::emph_pair::add_with::<'=', 2, true>(md, || markdown_it::Node::new(Gen("mark"))),
+        25 => markdown_it::generics::inline::full_link::add_prefix::<'?', true>(md, |_, _| markdown_it::Node::new(Gen("qlink"))),
         _ => unreachable!(),
     }
 }
@@ -57,7 +71,7 @@ impl Cfg {
     pub fn has(&self, i: usize) -> bool { self.mask & (1 << i) != 0 }
     pub fn has_html(&self) -> bool { self.has(HTML_INLINE) || self.has(HTML_BLOCK) }
     pub fn order(&self) -> Vec<usize> {
-        let mut v: Vec<usize> = (0..N_PLUGINS).filter(|i| self.has(*i)).collect();
+        let mut v: Vec<usize> = (0..N_PLUGINS + N_EXTRA).filter(|i| self.has(*i)).collect();
         if self.order_seed != 0 {
             let mut r = Rng::new(self.order_seed);
             for i in (1..v.len()).rev() { let j = r.below(i + 1); v.swap(i, j); }
@@ -97,6 +111,8 @@ pub fn sample(rng: &mut Rng, need_paragraph: bool, allow_html: bool) -> Cfg {
         5 | 6 => { let mut c = Cfg::full(); c.mask &= !(1 << rng.below(N_PLUGINS)); c }
         _ => Cfg { mask: (rng.next() as u32) & ((1 << N_PLUGINS) - 1), order_seed: 0, max_nesting: 100 },
     };
+    // sometimes add structures built from the documented generics (custom markers % $ ^ = ?)
+    if rng.chance(1, 6) { c.mask |= ((rng.next() as u32) & ((1 << N_EXTRA) - 1)) << N_PLUGINS; }
     if rng.chance(1, 3) { c.order_seed = 1 + rng.below(1000) as u64; }
     if rng.chance(1, 6) { c.max_nesting = *rng.pick(&[0, 1, 2, 3, 5, 10]); }
     if need_paragraph { c.mask |= 1 << PARAGRAPH; }
